@@ -89,6 +89,14 @@ def parseJavadocLine (line : Bytes) : Option Tag :=
 
 def parseJavadocTags (comment : Bytes) : List Tag := (splitB 10 comment).filterMap parseJavadocLine
 
+/-- `(*Javadoc).GetCommentAuthor` and its siblings (model/javadoc.go): the text of the first tag of that name,
+    the empty string when there is none -/
+def docAccessor (tags : List Tag) (name : String) : Bytes :=
+  ((tags.find? (fun t => t.name == str name)).map (·.text)).getD []
+
+/-- `GetCommentParam`: the texts of all `@param` tags, in order -/
+def docParams (tags : List Tag) : List Bytes := (tags.filter (fun t => t.name == str "param")).map (·.text)
+
 /-- the Javadoc attached to a declaration: the previous sibling, if it is a block comment starting with `/*` -/
 def javadocOf (prev : Option T) (src : Bytes) : Option (List Tag) :=
   match prev with
